@@ -121,7 +121,11 @@ func newHVSJob(pw []int64) *hvsJob {
 	alt := map[uint32]int{1: bB, 2: bAr, 3: bAp}
 	for rd := uint32(1); rd <= 3; rd++ {
 		for _, t := range voteTypes {
-			add(&hvsToken{name: fmt.Sprintf("q>v0:r%d:%s:%s", rd, tn[t], blkName[alt[rd]]), kind: "vote-B", vote: mk(0, rd, t, alt[rd], height), peer: "q"})
+			b := alt[rd]
+			if rd == 3 && t == kproto.PrecommitType {
+				b = bA256 // the total sibling that differs by 256
+			}
+			add(&hvsToken{name: fmt.Sprintf("q>v0:r%d:%s:%s", rd, tn[t], blkName[b]), kind: "vote-B", vote: mk(0, rd, t, b, height), peer: "q"})
 		}
 	}
 	// a third unknown round from peer p0; a wrong-height vote for an unknown round; an invalid type
